@@ -36,6 +36,13 @@ Theorem C10_pivot_2x2_nonsingular : forall (F : rcfType) (alpha akk arr ark sigm
 Proof. move=> F alpha akk arr ark sigma a0 a1 l0 sl; exact: choice2_block_nonsingular. Qed.
 Print Assumptions C10_pivot_2x2_nonsingular.
 
+(* ... and in that 2x2 block the off-diagonal entry strictly dominates a_kk, so both 2x2 kernels take their second branch *)
+Theorem C10_pivot_2x2_second_branch : forall (F : rcfType) (alpha akk arr ark sigma : F),
+  0 < alpha -> alpha < 1 -> 0 < `|ark| -> `|ark| <= sigma ->
+  bk_choice (OpsF F) alpha `|akk| `|ark| sigma `|arr| = 2%N -> Ops.leb (OpsF F) (Ops.abs (OpsF F) ark) (Ops.abs (OpsF F) akk) = false.
+Proof. move=> F alpha akk arr ark sigma a0 a1 l0 sl; exact: choice2_offdiag_dominates. Qed.
+Print Assumptions C10_pivot_2x2_second_branch.
+
 (* the decision taken inside permutate_mat (model of BKLDLT::permutate_mat, tied bit for bit) IS bk_choice on the four magnitudes:
    a 1x1 pivot is chosen exactly when bk_choice is not 2 - for every scalar instance *)
 Theorem C10_decision_is_bk_choice : forall (o : Ops) (alpha : T o) (n : nat) (P : packed o) (pm : list BinNums.Z) (k : nat),
